@@ -4357,7 +4357,12 @@ def refresh_schema_and_set_result(control_conn, response_future, connection, **k
     try:
         log.debug("Refreshing schema in response to schema change. "
                   "%s", kwargs)
-        response_future.is_schema_agreed = control_conn._refresh_schema(connection, **kwargs)
+        # is_schema_agreed reports the agreement poll itself; _refresh_schema's return value says
+        # whether metadata was refreshed, which is also False when schema metadata is disabled
+        agreed = control_conn.wait_for_schema_agreement(connection)
+        response_future.is_schema_agreed = bool(agreed)
+        if agreed:
+            control_conn._refresh_schema(connection, schema_agreement_wait=0, **kwargs)
     except Exception:
         log.exception("Exception refreshing schema in response to schema change:")
         response_future.session.submit(control_conn.refresh_schema, **kwargs)
